@@ -251,6 +251,30 @@ func (e *Exec) concretize(t *Term, what string) uint64 {
 	return vals[0]
 }
 
+// forkRange concretises a fresh variable v over [lo,hi] without solver calls:
+// v occurs nowhere else, so every value in the range is feasible.
+func (e *Exec) forkRange(v *Term, lo, hi int64) int64 {
+	if hi < lo {
+		panic(pathEnd{"infeasible", "empty range"})
+	}
+	if i := len(e.taken); i < len(e.prefix) {
+		d := e.prefix[i]
+		if d.Kind != 'c' {
+			panic(engineError{fmt.Sprintf("replay divergence: expected %c got forkRange at decision %d", d.Kind, i)})
+		}
+		e.taken = append(e.taken, d)
+		e.addPC(e.tt.Eq(v, e.tt.BV(v.w, uint64(d.V))))
+		return d.V
+	}
+	for x := hi; x > lo; x-- {
+		alt := append(append([]Decision{}, e.taken...), Decision{x, false, 'c'})
+		e.pending = append(e.pending, alt)
+	}
+	e.taken = append(e.taken, Decision{lo, false, 'c'})
+	e.addPC(e.tt.Eq(v, e.tt.BV(v.w, uint64(lo))))
+	return lo
+}
+
 // chooseN is a non-solver choice among n alternatives (scheduler).
 func (e *Exec) chooseN(n int, what string) int {
 	if n <= 1 {
